@@ -176,6 +176,14 @@ func (i *Interface) getRecord(dbName string, dbKey string, mustBeWriteable bool)
 		if !i.options.hasAccessPermission(r) {
 			return nil, db, ErrPermissionDenied
 		}
+		// A cached record may have expired (or been deleted) since it
+		// entered the cache: it is no longer there for a get.
+		r.Lock()
+		valid := r.Meta().CheckValidity()
+		r.Unlock()
+		if !valid {
+			return nil, db, ErrNotFound
+		}
 		return r, db, nil
 	}
 
